@@ -157,6 +157,8 @@ CONFIGS = {
                                ctrl=dict(cmd_buffer_depth=1, read_time=4, write_time=4)), True, 40, 60, "qt"),
     "fair_ddr3_2b_2p_d2_tfaw": (dict(phy="ddr3_fast", bankbits=1, nports=2, timing=T_FULL,
                                      ctrl=dict(cmd_buffer_depth=2, read_time=4, write_time=4)), True, 40, 60, "qt"),
+    "fair_sdr_2b_2p_d2_buffered": (dict(phy="sdr_fast", bankbits=1, nports=2, timing=T_MIN,
+                                        ctrl=dict(cmd_buffer_depth=2, cmd_buffer_buffered=True, read_time=4, write_time=4)), True, 0, 44, "t"),
     "adversarial_sdr_2b_2p_d2": (dict(phy="sdr_fast", bankbits=1, nports=2, timing=T_MIN,
                                       ctrl=dict(cmd_buffer_depth=2, read_time=4, write_time=4)), False, 30, 40, "qt"),
     "fair_ddr3_2b_2p_d2_rt8": (dict(phy="ddr3_fast", bankbits=1, nports=2, timing=T_MIN,
@@ -171,9 +173,11 @@ CONFIGS = {
 STROBE_RE = "data_strobe_without_an_accepted_command"
 BENCHES = {n: partial(corebench.core_bench, n, c[0], None, True, partial(_extra, fair=c[1])) for n, c in CONFIGS.items()}
 # the strobe-ownership monitors count per port (SAT-hard at depth, like C01's): they run on their own shallow copy of two benches
-STROBE_BENCHES = {"strobes_fair_sdr_2b_2p_d1": "fair_sdr_2b_2p_d1", "strobes_adversarial_sdr_2b_2p_d2": "adversarial_sdr_2b_2p_d2"}
+STROBE_BENCHES = {"strobes_fair_sdr_2b_2p_d1": "fair_sdr_2b_2p_d1", "strobes_adversarial_sdr_2b_2p_d2": "adversarial_sdr_2b_2p_d2",
+                  "strobes_adversarial_sdr_2b_2p_d2_buffered": "fair_sdr_2b_2p_d2_buffered"}
 for _a, _n in STROBE_BENCHES.items():
-    BENCHES[_a] = partial(corebench.core_bench, _a, CONFIGS[_n][0], None, True, partial(_extra, fair=CONFIGS[_n][1]))
+    BENCHES[_a] = partial(corebench.core_bench, _a, CONFIGS[_n][0], None, True,
+                          partial(_extra, fair=CONFIGS[_n][1] and "adversarial" not in _a))
 for _n in ("fair_sdr_2b_2p_d2_rt4", "fair_ddr3h_2b_2p_d2_tccd2"):
     BENCHES["calibrate_" + _n] = partial(corebench.core_bench, "calibrate_" + _n, CONFIGS[_n][0], None, True,
                                          partial(_extra, fair=True, calibrate=True))
